@@ -117,6 +117,10 @@ let handle (f : string array) : string =
     (match parsePKCS8UnecryptedPrivateKey dummy_base der with Ok ((d, _), _) -> " ok " ^ str_of_z d | _ -> " err")
   | "PK" | "PS" ->
     (match parseSm2PrivateKey dummy_base (bytes_of_hex f.(2)) with Ok ((d, _), _) -> "ok " ^ str_of_z d | _ -> "err")
+  | "FK" ->   (* model: ParseSm2PrivateKey on the scalar octets; the base-point multiplication is handed the scalar it is given *)
+    (match parseSm2PrivateKey (fun sc -> (sc, sc)) (bytes_of_hex f.(7)) with
+     | Ok ((d, fed), _) -> "ok " ^ str_of_z d ^ " " ^ str_of_z fed
+     | _ -> "err")
   | "PX" ->
     (match parseSm2PublicKey (marshalSm2PublicKey (z_of_str f.(2)) (z_of_str f.(3))) with
      | Some (x, y) -> "ok " ^ str_of_z x ^ " " ^ str_of_z y ^ " 1"
